@@ -5,10 +5,12 @@
 (* A case is one submitted statement: a template (SELECT / INSERT VALUES / INSERT SELECT /   *)
 (* UPDATE / DELETE / UPSERT / RETURNING / CTE / sub-query / window / multi-row forms), an     *)
 (* unrelated "filler" expression whose meaning must survive, and 0..3 call sites, each in a  *)
-(* named slot (= clause context) of the template.  A site is                                 *)
+(* named slot (= clause context) of the template; two sites may share a slot (the calls then *)
+(* stand side by side in one expression of that clause).  A site is                          *)
 (*   [fn, form (argument / time-value form), mod (modifiers), cs (case of the name),          *)
 (*    gap (what separates the name from the parenthesis), nest (expression it is nested in)] *)
 (* nest = "string" / "ident" put the call text inside a string literal / a quoted identifier.*)
+(* form = "col": the time value is a column of the table in scope (deterministic).           *)
 (*                                                                                           *)
 (* MustRewrite(site)  = what the property text demands.                                      *)
 (* Replaced(case, i)  = what the DESIGN of the rewriter does: substring pre-filter on the    *)
@@ -26,6 +28,8 @@ CONSTANTS PrefilterComplete,    \* the pre-filter recognises a call whatever sep
           UntouchedIfNoSite,    \* a statement in which nothing was replaced is replicated byte for byte
           WalkEverywhere,       \* every clause and every expression form is visited
           OnePin,               \* one clock reading per statement
+          SiteIndependent,      \* whether a call is replaced does not depend on the other calls of the statement: the statement
+                                \* is re-rendered iff ANY call was replaced (FALSE: the verdict of the last call visited decides)
           Tier                  \* "neg" | "quick" | "full": which case sets are enumerated
 
 -----------------------------------------------------------------------------
@@ -36,8 +40,8 @@ Fns     == {"random", "randomblob"} \cup TimeFns
 
 FormsOf(fn) == CASE fn = "random"     -> {"call"}
                  [] fn = "randomblob" -> {"lit", "zero", "expr"}
-                 [] fn \in T1         -> {"now", "nowuc", "implicit", "other", "expr"}
-                 [] fn = "strftime"   -> {"now", "implicit", "other"}
+                 [] fn \in T1         -> {"now", "nowuc", "implicit", "other", "expr", "col"}
+                 [] fn = "strftime"   -> {"now", "implicit", "other", "col"}
                  [] fn = "timediff"   -> {"now_other", "other_now", "now_now", "other_other"}
 ModsOf(fn, form) == IF fn \in T1 \cup {"strftime"} /\ form \in {"now", "other"}
                     THEN {"none", "plus", "som2", "rawunix"} ELSE {"none"}
@@ -83,6 +87,12 @@ SlotF == [t \in Tpls |-> LET i == CHOOSE j \in DOMAIN TplSlots : TplSlots[j][1] 
 SlotsOf(t) == SlotF[t]
 AllSlots == UNION {{<<TplSlots[i][1], TplSlots[i][2][k]>> : k \in DOMAIN TplSlots[i][2]} : i \in DOMAIN TplSlots}
 InOrderBy(slot) == slot \in {"orderby", "suborderby", "winorder"}
+\* a time value read from a COLUMN needs a table in scope: not in a VALUES list, a FROM-less (sub-)select, LIMIT / OFFSET
+NoColumn == {<<"select", "offset">>, <<"compound", "proj">>, <<"compound", "proj2">>, <<"values", "values">>, <<"insval", "values">>,
+             <<"insval2", "values2">>, <<"replace", "values">>, <<"updfrom", "subproj">>, <<"upsert", "values">>, <<"insret", "values">>,
+             <<"ctesel", "ctebody">>, <<"cteins", "ctebody">>, <<"cteupd", "ctebody">>, <<"ctedel", "ctebody">>, <<"multi", "values">>}
+ColScope(tpl, slot) == <<tpl, slot>> \in AllSlots \ NoColumn
+WellScoped(tpl, slot, s) == s.form = "col" => ColScope(tpl, slot)
 
 Fills == {"none", "str", "blob", "num", "null", "curts", "collate", "cast", "caseexpr", "like", "likeesc", "glob",
           "isnot", "notnull", "isnull", "between", "notin", "concat", "json", "bitops", "arith", "neg", "hexint",
@@ -113,7 +123,8 @@ Recognised(slot, s) == CASE s.fn = "random"     -> ~(SkipOrderBy /\ InOrderBy(sl
                          [] s.fn \in T1         -> s.form \in {"now", "nowuc"} \/ (s.form = "implicit" /\ ImplicitNow)
                          [] s.fn = "strftime"   -> s.form = "now" \/ (s.form = "implicit" /\ FormatOnly)
                          [] s.fn = "timediff"   -> s.form # "other_other"
-Replaced(c, i) == Parsed(c) /\ Reached(c.sites[i].slot, c.sites[i].s) /\ Recognised(c.sites[i].slot, c.sites[i].s)
+NodeReplaced(c, i) == Parsed(c) /\ Reached(c.sites[i].slot, c.sites[i].s) /\ Recognised(c.sites[i].slot, c.sites[i].s)
+Replaced(c, i) == NodeReplaced(c, i) /\ (SiteIndependent \/ NodeReplaced(c, Len(c.sites)))      \* sites are visited in textual order
 TimeCallWithArgs(s) == CallSite(s) /\ s.fn \in TimeFns /\ s.form # "implicit"
 Rerendered(c) == /\ Parsed(c)
                  /\ \/ \E i \in DOMAIN c.sites : Replaced(c, i)
@@ -137,6 +148,11 @@ Reps8 == {Rep("random", "call"), Rep("randomblob", "lit"), Rep("datetime", "now"
           S(<<"date", "now", "none">>, "lower", "none", "string"), S(<<"datetime", "now", "none">>, "lower", "space", "bare")}
 Reps12 == Reps8 \cup {Rep("julianday", "now"), Rep("randomblob", "expr"), S(<<"random", "call", "none">>, "upper", "none", "ident"),
                       S(<<"random", "call", "none">>, "lower", "comment", "call")}
+\* one representative per kind of call (what the walker's branch for it looks at): non-deterministic ones and the time calls
+\* on a fixed value / a column, which the walker visits and must leave alone
+RepsK8  == {Rep("random", "call"), Rep("randomblob", "lit"), Rep("julianday", "now"), Rep("date", "implicit"), Rep("datetime", "other"),
+            Rep("date", "col"), Rep("strftime", "now"), Rep("strftime", "other")}
+RepsK10 == RepsK8 \cup {Rep("timediff", "other_now"), Rep("timediff", "other_other"), Rep("strftime", "col"), Rep("unixepoch", "expr")}
 BaseSlots == {<<"select", "proj">>, <<"insval", "values">>, <<"update", "set">>}
 
 \* G1: every function form in every clause context
@@ -155,6 +171,8 @@ Triples(t, R) == {Mk(t, "none", <<At(SlotsOf(t)[i], a), At(SlotsOf(t)[j], b), At
                     <<i, j, k>> \in {p \in (DOMAIN SlotsOf(t)) \X (DOMAIN SlotsOf(t)) \X (DOMAIN SlotsOf(t)) : p[1] < p[2] /\ p[2] < p[3]},
                     a \in R, b \in R, d \in R}
 G5(R) == UNION {Pairs(t, R) : t \in Tpls}
+\* two sites side by side in ONE clause, in either order
+G5s(SS, R) == {Mk(ts[1], "none", <<At(ts[2], a), At(ts[2], b)>>) : ts \in SS, a \in R, b \in R}
 G6(R) == UNION {Triples(t, R) : t \in Tpls}
 \* thorough only: the whole site space in three base contexts, and every form x nesting x context
 G7 == {Mk(ts[1], "none", <<At(ts[2], S(ffm, cs, gap, n))>>) : ts \in BaseSlots, ffm \in FnForms, cs \in Cases_, gap \in Gaps, n \in Nests}
@@ -162,9 +180,15 @@ G8 == {Mk(ts[1], "none", <<At(ts[2], S(ffm, "lower", "none", n))>>) : ts \in All
 
 Sel == {<<"select", "proj">>}
 NegSlots == {<<"select", "proj">>, <<"select", "orderby">>, <<"ctesel", "ctebody">>}
-CaseSet == CASE Tier = "neg"   -> G1(NegSlots) \cup G2(Sel) \cup {x \in G3(Sel) : x.sites[1].s.cs = "lower"} \cup Pairs("select", Reps6)
-             [] Tier = "quick" -> G1(AllSlots) \cup G2(AllSlots) \cup G3(Sel \cup {<<"insval", "values">>}) \cup G4 \cup G5(Reps8) \cup G6(Reps6)
-             [] Tier = "full"  -> G1(AllSlots) \cup G2(AllSlots) \cup G3(Sel \cup {<<"insval", "values">>}) \cup G4 \cup G5(Reps12) \cup G6(Reps8) \cup G7 \cup G8
+Scoped(X) == {x \in X : \A i \in DOMAIN x.sites : WellScoped(x.tpl, x.sites[i].slot, x.sites[i].s)}
+CaseSet == Scoped(
+           CASE Tier = "neg"   -> G1(NegSlots) \cup G2(Sel) \cup {x \in G3(Sel) : x.sites[1].s.cs = "lower"} \cup Pairs("select", Reps6)
+                                  \cup G5s(Sel, Reps6)
+             [] Tier = "quick" -> G1(AllSlots) \cup G2(AllSlots) \cup G3(Sel \cup {<<"insval", "values">>}) \cup G4
+                                  \cup G5(Reps8 \cup {Rep("date", "col")}) \cup G5s(AllSlots, RepsK8) \cup G6(Reps6)
+             [] Tier = "full"  -> G1(AllSlots) \cup G2(AllSlots) \cup G3(Sel \cup {<<"insval", "values">>}) \cup G4
+                                  \cup G5(Reps12 \cup {Rep("date", "col"), Rep("strftime", "other")}) \cup G5s(AllSlots, RepsK10)
+                                  \cup G6(Reps8) \cup G7 \cup G8)
 
 -----------------------------------------------------------------------------
 VARIABLE c
